@@ -416,22 +416,38 @@ def unique_runs(chk, n):
            "paths": {"/op0": {"get": {"parameters": [{"name": "q", "in": "query", "required": True,
                                                        "schema": {"type": "string", "enum": ["true", "false", "maybe"]}}],
                                       "responses": {"200": {"description": "ok"}}}}}}
-    for _ in range(n):
+    # the same operation with two declared header parameters: one fixed by --header, one by --set-header.  What reaches the
+    # API then differs in `q` only, and "unique" is about the requests the API receives
+    raw_h = {"openapi": "3.0.2", "info": {"title": "t", "version": "1"}, "paths": {"/op0": {"get": {"parameters": [
+        {"name": "q", "in": "query", "required": True, "schema": {"type": "string", "enum": ["true", "false", "maybe"]}},
+        {"name": "X-A", "in": "header", "required": True, "schema": {"type": "string"}},
+        {"name": "X-B", "in": "header", "required": True, "schema": {"type": "string"}}],
+        "responses": {"200": {"description": "ok"}}}}}}
+    for i in range(n):
         log: list = []
         import flask
         failing = rng.random() < 0.6     # a request whose check fails must not be repeated either
         app = E.make_app(lambda p, k: 500 if failing and flask.request.args.get("q") == "true" else 200, log)
         workers = rng.choice([1, 2])
         phases = rng.choice([[PhaseName.FUZZING], [PhaseName.COVERAGE, PhaseName.FUZZING]])
+        both_sources = i % 2 == 1
         with E.Server(app) as srv:
-            E.run_engine(E.load_schema(srv.url, raw=raw), E.engine_config(phases=phases, workers=workers,
-                                                                           max_examples=10, unique_inputs=True,
-                                                                           seed=rng.randint(1, 9999)))
+            cfg = E.engine_config(phases=phases if not both_sources else [PhaseName.FUZZING], workers=workers, max_examples=10,
+                                  unique_inputs=True, seed=rng.randint(1, 9999))
+            if both_sources:
+                from schemathesis.engine.config import EngineConfig, NetworkConfig
+                from schemathesis.generation.overrides import Override
+                cfg = EngineConfig(execution=cfg.execution, network=NetworkConfig(headers={"X-B": "fixed-b"}),
+                                   override=Override(query={}, headers={"X-A": "fixed-a"}, cookies={}, path_parameters={}))
+            E.run_engine(E.load_schema(srv.url, raw=raw_h if both_sources else raw), cfg)
         reqs = [(p, q, m) for p, _, q, m in log]
-        chk.case("unique-inputs:engine-run", key=sorted(reqs), sample={"requests": reqs})
+        chk.case("unique-inputs:engine-run", key=[both_sources, sorted(reqs)], sample={"requests": reqs, "header_and_set_header": both_sources})
+        chk.feature(f"unique-inputs:--header-and---set-header={both_sources}")
         if len(set(reqs)) != len(reqs):
-            chk.violation("C12:unique_inputs:same-request-sent-twice", "the same request was sent twice for an operation "
-                          "with unique_inputs enabled", {"requests": reqs})
+            chk.violation("C12:unique_inputs:same-request-sent-twice" + (":header-and-set-header-configured" if both_sources else ""),
+                          "the same request was sent twice for an operation with unique_inputs enabled"
+                          + (" (X-B fixed by --header, X-A by --set-header: the requests differ in q only)" if both_sources else ""),
+                          {"requests": reqs, "header_and_set_header": both_sources})
 
 
 def stateful_runs(chk, n):
